@@ -187,7 +187,10 @@ def extract_playback(text):
 
     Kani prints one test per failed check and one per satisfied cover, without saying which is
     which; all of them are kept."""
-    tests = PLAYBACK_RE.findall(text)
+    tests = []
+    for t in PLAYBACK_RE.findall(text):
+        if t not in tests:  # Kani sometimes prints the same test twice
+            tests.append(t)
     return "\n\n".join(tests) if tests else None
 
 
